@@ -31,6 +31,7 @@ class Unordered(object):
         self.prog = prog
         self.params = set()  # (id(fn_node), name)
         self.attrs = set()  # (class qualname, attr)
+        self._ret_memo, self._ret_busy = {}, set()
         self._fix()
 
     def is_unordered(self, e, depth=0):
@@ -46,6 +47,23 @@ class Unordered(object):
             if isinstance(e.func, ast.Attribute) and e.func.attr in ("union", "intersection", "difference", "symmetric_difference", "copy") \
                     and self.is_unordered(e.func.value, depth + 1):
                 return True
+            # a function of the package some of whose paths return an unordered collection (e.g. a "default table"
+            # helper that hands out a frozenset constant unless the caller supplied a sequence)
+            if isinstance(e.func, (ast.Name, ast.Attribute)) and depth < 4:
+                for t in prog.resolve_expr_fn(e.func, e):
+                    if isinstance(t, FunctionInfo) and isinstance(t.node, ast.FunctionDef):
+                        key = id(t.node)
+                        if key in self._ret_busy:
+                            continue
+                        if key not in self._ret_memo:
+                            self._ret_busy.add(key)
+                            try:
+                                self._ret_memo[key] = any(isinstance(r, ast.Return) and r.value is not None and enclosing_fn(r) is t and self.is_unordered(r.value, depth + 1)
+                                                          for r in ast.walk(t.node))
+                            finally:
+                                self._ret_busy.discard(key)
+                        if self._ret_memo[key]:
+                            return True
             return False
         if isinstance(e, ast.BinOp) and isinstance(e.op, SET_OPS):
             l, r = e.left, e.right
@@ -568,6 +586,40 @@ def rule_det3(prog, rep, tier, scope=None):
                 if en in MEMO_DECORATORS:
                     n += 1
                     rep.violation(Finding("DET-3", m.name, "memo-wrap:%s" % src(st.targets[0]), "module-level memoisation wrapper %s" % src(st, 70), loc(prog, st)))
+    # one-shot iterators with module lifetime: map/filter/zip/iter/generator objects bound at import (directly, or frozen into
+    # a partial / default argument) are consumed by the first call that iterates them; every later call sees them empty
+    ONE_SHOT = {"builtins.map", "builtins.filter", "builtins.zip", "builtins.iter", "builtins.enumerate", "builtins.reversed", "itertools.chain", "itertools.islice",
+                "itertools.chain.from_iterable", "itertools.takewhile", "itertools.dropwhile", "itertools.starmap", "itertools.cycle", "itertools.repeat"}
+
+    def one_shot(e):
+        if isinstance(e, ast.GeneratorExp):
+            return True
+        return isinstance(e, ast.Call) and isinstance(e.func, (ast.Name, ast.Attribute)) and prog.ext_name(e.func, e) in ONE_SHOT
+    for m in prog.modules.values():
+        if m.name not in scope_modules:
+            continue
+        for st in m.tree.body:
+            if not isinstance(st, (ast.Assign, ast.AnnAssign)) or st.value is None:
+                continue
+            v = st.value
+            cands = [v]
+            if isinstance(v, ast.Call) and isinstance(v.func, (ast.Name, ast.Attribute)) and prog.ext_name(v.func, v) == "functools.partial":
+                cands = list(v.args[1:]) + [k.value for k in v.keywords]
+            for c in cands:
+                if one_shot(c):
+                    n += 1
+                    tgt = st.targets[0] if isinstance(st, ast.Assign) else st.target
+                    rep.violation(Finding("DET-3", m.name, "one-shot-iterator:%s" % src(tgt, 30),
+                                          "%s is created once at import and lives as long as the module (%s): the first call that iterates it exhausts it, so the result of "
+                                          "every later call differs from the first" % (src(c, 60), src(st, 70)), loc(prog, st)))
+        for f in fns:
+            if f.module is not m or not isinstance(f.node, (ast.FunctionDef, ast.AsyncFunctionDef)):
+                continue
+            for d in f.node.args.defaults + [x for x in f.node.args.kw_defaults if x is not None]:
+                if one_shot(d):
+                    n += 1
+                    rep.violation(Finding("DET-3", f.qualname, "one-shot-default:%s" % src(d, 30),
+                                          "the default %s is a one-shot iterator shared by all calls" % src(d, 60), loc(prog, d)))
     rep.ob("DET-3", "%d functions scanned for writes to state that outlives the call" % len(fns), "holds", "", "%d candidate(s) examined" % n)
     # vacuity: a clean package legitimately has no candidate at all, so the guard is on what was scanned (the recogniser
     # itself is exercised on every thorough run by the self-test variants that plant each construct class)
